@@ -8,12 +8,16 @@ EXTENDS Pipeline
 CONSTANTS Big           \* FALSE: quick pools, TRUE: thorough pools
 
 Tables ==
-    { [t |-> <<0, 10, 20, 30>>, data |-> [a |-> <<0, 5, 0, 1>>, b |-> <<1, 1, 5, 0>>],
+    { [t |-> <<0, 10, 20, 30>>, hastime |-> TRUE, data |-> [a |-> <<0, 5, 0, 1>>, b |-> <<1, 1, 5, 0>>],
        z |-> <<0, 1, 2, 3>>, lat |-> <<>>, lon |-> <<>>],
-      [t |-> <<0, 10, 20>>, data |-> [a |-> <<5, 0, 5>>, b |-> <<0, 0, 1>>],
+      [t |-> <<0, 10, 20>>, hastime |-> TRUE, data |-> [a |-> <<5, 0, 5>>, b |-> <<0, 0, 1>>],
        z |-> <<>>, lat |-> <<0, 2, 0>>, lon |-> <<0, 0, 2>>] }
-    \cup (IF Big THEN { [t |-> <<0, 10, 20, 30, 40>>, data |-> [a |-> <<0, 0, 5, 0, 1>>, b |-> <<1, 5, 1, 1, 0>>],
+    \cup (IF Big THEN { [t |-> <<0, 10, 20, 30, 40>>, hastime |-> TRUE, data |-> [a |-> <<0, 0, 5, 0, 1>>, b |-> <<1, 5, 1, 1, 0>>],
                          z |-> <<3, 2, 1, 1, 0>>, lat |-> <<0, 0, 2, 2, 0>>, lon |-> <<0, 2, 2, 0, 0>>] } ELSE {})
+
+\* a stream that is given no time array at all: windows cannot apply, time-based tests lack an input
+NoTimeTable == [t |-> <<0, 1, 2>>, hastime |-> FALSE, data |-> [a |-> <<5, 0, 5>>, b |-> <<0, 0, 1>>],
+                z |-> <<0, 1, 2>>, lat |-> <<>>, lon |-> <<>>]
 
 \* window layouts: disjoint (half-open, closed, empty, all-covering first, ending exactly on a row),
 \* and one overlapping layout (the order-independence clause does not apply to it)
@@ -26,9 +30,10 @@ Layouts ==
       << <<5, 15>>, <<25, NA>> >>,
       << <<0, 40>> >>,
       << <<NA, 10>> >>,
-      << <<NA, 20>>, <<10, NA>> >> }
-    \cup (IF Big THEN { << <<NA, 10>>, <<10, 20>>, <<20, NA>> >>, << <<20, 30>>, <<0, 0>>, <<NA, 20>> >>,
-                        << <<NA, NA>>, <<NA, NA>> >> } ELSE {})
+      << <<NA, 20>>, <<10, NA>> >>,
+      << <<NA, 20>>, <<NA, 20>> >>,                    \* two contexts with the same window: one group
+      << <<NA, 10>>, <<10, 20>>, <<20, NA>> >> }        \* three contexts partitioning the rows
+    \cup (IF Big THEN { << <<20, 30>>, <<0, 0>>, <<NA, 20>> >>, << <<NA, NA>>, <<NA, NA>> >> } ELSE {})
 
 GrossA  == [stream |-> "a", fn |-> "gross", p |-> [fail |-> <<0, 4>>, susp |-> <<>>]]
 SpikeA  == [stream |-> "a", fn |-> "spike", p |-> [st |-> <<1, 1>>, ft |-> <<3, 1>>, method |-> "average"]]
@@ -43,7 +48,9 @@ NoTestB == [stream |-> "b", fn |-> "notest", p |-> [none |-> 0]]
 AbsentC == [stream |-> "c", fn |-> "gross",  p |-> [fail |-> <<0, 4>>, susp |-> <<>>]]
 BadParA == [stream |-> "a", fn |-> "gross",  p |-> [fail |-> <<1, 2>>, susp |-> <<0, 4>>]]
 
-HealthyPool == IF Big THEN {GrossA, SpikeA, RocB, GrossB, DensA, ProbeB} ELSE {GrossA, SpikeA, RocB, DensA}
+ValidB  == [stream |-> "b", fn |-> "valid", p |-> [lo |-> 1, hi |-> NA, sincl |-> TRUE, eincl |-> FALSE, kind |-> "num"]]
+Probe2B == [stream |-> "b", fn |-> "probe2", p |-> [none |-> 0]]
+HealthyPool == IF Big THEN {GrossA, SpikeA, RocB, GrossB, DensA, ProbeB, ValidB, Probe2B} ELSE {GrossA, SpikeA, RocB, DensA, ValidB}
 FaultPool   == {BoomA, NoModA, NoTestB, AbsentC, BadParA}
 Pool        == HealthyPool \cup FaultPool
 
@@ -56,7 +63,9 @@ EntryLists ==
 ShortLists == { <<e>> : e \in Pool }
 
 MCPInit ==
-    \E tb \in Tables, lay \in Layouts :
+    \/ \E first \in EntryLists : PStart(NoTimeTable, << [win |-> <<NA, NA>>, entries |-> first] >>)
+    \/ \E pr \in {ProbeB} \X {Probe2B} : PStart(NoTimeTable, << [win |-> <<NA, NA>>, entries |-> <<pr[1], pr[2]>>] >>)
+    \/ \E tb \in Tables, lay \in Layouts :
         \E first \in EntryLists :
             \/ Len(lay) = 1 /\ PStart(tb, << [win |-> lay[1], entries |-> first] >>)
             \/ Len(lay) = 2 /\ \E second \in (IF Big THEN EntryLists ELSE ShortLists) :
